@@ -60,6 +60,72 @@ def _distribution(cases):
     return d
 
 
+# ---------------------------------------------------------------- in-Coq cross-check of the extraction
+_MT = {"connection_ack": "MAck", "error": "MError", "complete": "MComplete", "pong": "MPong", "next": "MNext",
+       "connection_error": "MConnError", "ka": "MKa", "data": "MData"}
+_PL = {"s": "PSub", "q": "PQuery", "nopayload": "PNoPayload", "getfail": "PGetFail"}
+
+
+def _coq_input(i):
+    f = i.split()
+    k = f[0]
+    if k == "init":
+        return "CInit " + {"none": "INone", "accept": "IAccept", "reject": "IReject"}[f[1]]
+    if k in ("sub", "start"):
+        return "%s %s %s" % ("CSubscribe" if k == "sub" else "CStart", f[1], _PL[f[2]])
+    if k in ("complete", "stop"):
+        return "%s %s" % ("CComplete" if k == "complete" else "CStop", f[1])
+    if k == "flush":
+        return "EFlush " + f[1]
+    if k == "ret":
+        return "ERet %s %s %s" % (f[1], {"ok": "ROk", "data": "RData", "err": "RErr"}[f[2]], "true" if f[3] == "go" else "false")
+    return {"ping": "CPing", "pong": "CPong", "terminate": "CTerminate", "badjson": "CBadJson", "wrongshape": "CWrongShape",
+            "unknown": "CUnknown", "inittimeout": "EInitTimeout", "tick": "ETick", "clientclose": "EClientClose"}[k]
+
+
+def _coq_case(line):
+    """(protocol, inputs, outputs) of a recorded case as Gallina terms."""
+    m = re.match(r"\(c19 (\w+) \w+ \(steps (.*)\) \(exit [tf]\)\)$", line)
+    ins, outs = [], []
+    for sm in re.finditer(r"\(\(([a-z]+(?: [\w]+)*)\) \(outs((?: \([^()]*\))*)\) \(live", m.group(2)):
+        ins.append(_coq_input(sm.group(1)))
+        os_ = []
+        for om in re.finditer(r"\((m|c) ([^()]*)\)", sm.group(2)):
+            f = om.group(2).split()
+            if om.group(1) == "c":
+                os_.append("OClose %s" % f[0])
+            else:
+                t = _MT[f[0].strip('"')]
+                if t == "MPong" and len(f) > 2 and f[2] == "hb":
+                    t = "MPongHb"
+                os_.append("OMsg %s %s" % (t, f[1]))
+        outs.append("[" + "; ".join(os_) + "]")
+    return ("TWS" if m.group(1) == "tws" else "GWS", "[" + "; ".join(ins) + "]", "[" + "; ".join(outs) + "]")
+
+
+def crosscheck(chk, cases, results, n=300):
+    """Evaluate the model and the monitor INSIDE Coq (vm_compute) on n recorded cases the extracted
+    driver found in order: the implementation's outputs are the model's, and the monitor accepts."""
+    ok_lines = [cases[ln - 1] for (ln, st, _) in results if st == "ok" and 0 < ln <= len(cases)]
+    if not ok_lines:
+        return
+    step = max(1, len(ok_lines) // n)
+    picked = ok_lines[::step][:n]
+    txt = ("From Coq Require Import List NArith Bool.\nFrom Gv Require Import C19.Model C19.Spec.\n"
+           "Import ListNotations.\nOpen Scope N_scope.\n")
+    for k, line in enumerate(picked):
+        pr, ins, outs = _coq_case(line)
+        txt += "Example x%d : run_outs %s %s = %s /\\ monitor_accepts %s %s %s = true.\nProof. vm_compute. split; reflexivity. Qed.\n" % (
+            k, pr, ins, outs, pr, ins, outs)
+    p = os.path.join(chk.work, "CrossCheck.v")
+    open(p, "w").write(txt)
+    with vlib.Lock("coq"):
+        rc, out = vlib.sh("coqc -Q %s Gv -w -notation-overridden CrossCheck.v" % vlib.COQ, cwd=chk.work, timeout=1500)
+    chk.coverage["in_coq_crosscheck"] = {"cases": len(picked), "ok": rc == 0}
+    if rc != 0:
+        chk.add_violation("tie:C19/extraction-crosscheck", out[-1500:], case={"file": p}, found_input=False)
+
+
 def run(chk, only_corpus=None):
     chk.coverage["rule"] = RULE
     chk.assumptions += [
@@ -110,6 +176,8 @@ def run(chk, only_corpus=None):
             for (k, c, d) in state.get("specfail", []):
                 by_cause[k or "unattributed"] = by_cause.get(k or "unattributed", 0) + 1
             chk.coverage["distribution"]["monitor_failures_by_cause"] = by_cause
+            if chk.tier == "thorough":
+                crosscheck(chk, b[0], b[1])
 
     def more(st):
         for k in range(1, 4):
